@@ -17,18 +17,21 @@ RULE = ("generated programs printed (a) with alternative delimiter sets (multi-c
 LEVEL_TEXT = "held on the generated programs and the listed configurations only"
 ASSUMPTIONS = [
     "text runs and string literals contain none of the delimiter strings in play",
-    "line-oriented templates end with a text line; tags are not followed by blank lines",
+    "line-oriented templates end with a text line; tags are not followed by blank lines "
+    "(blank and whitespace-only lines BEFORE whole-line tags are generated: they are text in both forms)",
 ]
 NSHARDS = {"quick": 16, "thorough": 16}
 BUDGET_S = {"quick": 20, "thorough": 500}
 FLOORS = {
     "quick": {"evaluations": 3000, "distinct": 400,
               "counters": {"delimiter_compares": 800, "linestatement_compares": 300,
+                           "linestatement_blank_lines_before_tags": 60,
                            "template_ctor_compares": 300, "overlay_compares": 300,
                            "isolation_rerenders": 150, "lexer_configs_interleaved": 60,
                            "pair_order_checks": 60, "overlay_divergent_option_checks": 100}},
     "thorough": {"evaluations": 60000, "distinct": 6000,
                  "counters": {"delimiter_compares": 16000, "linestatement_compares": 6000,
+                              "linestatement_blank_lines_before_tags": 1200,
                               "template_ctor_compares": 6000, "overlay_compares": 6000,
                               "isolation_rerenders": 3000, "lexer_configs_interleaved": 60,
                               "pair_order_checks": 60, "overlay_divergent_option_checks": 100}},
@@ -93,18 +96,26 @@ def expr_texts_conflict(srcs, sx):
 
 
 # ------------------------------------------------------------------ line-oriented form
-def line_form(body, style, indent_rng, prefix="#", cprefix="##", multiline=False):
+def line_form(body, style, indent_rng, prefix="#", cprefix="##", multiline=False, blanks=False):
     """Print a statement list line by line.  style 'tags': {% %} tags and
-    {# #} comments on their own lines; style 'line': line statements/comments."""
+    {# #} comments on their own lines; style 'line': line statements/comments.
+    blanks: empty and whitespace-only lines in front of some whole-line tags (text, in both forms)."""
     lines = []
+    text_line = [False]    # is the last line a text line?
 
     def tag(s, ind):
+        # blank lines only after TEXT lines: whole-line tags followed by blank lines are outside
+        # the property's quantifier (the line-statement end swallows them, undocumented)
+        if blanks and text_line[0] and len(lines) % 3 != 0:
+            lines.extend([["", "   ", "", "\t"][len(lines) % 4]] * (1 + len(lines) % 2))
+        text_line[0] = False
         if style == "tags":
             lines.append(ind + "{% " + s + " %}")
         else:
             lines.append(ind + prefix + " " + s)
 
     def comment(s, ind):
+        text_line[0] = False
         if style == "tags":
             lines.append(ind + "{# " + s + " #}")
         else:
@@ -116,6 +127,7 @@ def line_form(body, style, indent_rng, prefix="#", cprefix="##", multiline=False
         def flush():
             if cur:
                 lines.append("".join(cur))
+                text_line[0] = True
                 del cur[:]
 
         for st in body:
@@ -205,11 +217,14 @@ def check_lines(ctx, rng):
         return
     ind = [rng.choice([0, 0, 2, 4]) for _ in range(5)]
     ml = rng.random() < 0.5
-    a_src = line_form(body, "tags", ind, multiline=ml)
+    bl = rng.random() < 0.5
+    a_src = line_form(body, "tags", ind, multiline=ml, blanks=bl)
     pfx, cpfx = rng.choice([("#", "##"), ("%%", "//"), ("@", "@@")])
-    b_src = line_form(body, "line", ind, pfx, cpfx, multiline=ml)
+    b_src = line_form(body, "line", ind, pfx, cpfx, multiline=ml, blanks=bl)
     if ml:
         ctx.count("linestatement_multiline_brackets")
+    if bl and "\n\n" in a_src:
+        ctx.count("linestatement_blank_lines_before_tags")
     A = jinja2.Environment(trim_blocks=True, lstrip_blocks=True)
     B = jinja2.Environment(trim_blocks=True, lstrip_blocks=True, line_statement_prefix=pfx,
                            line_comment_prefix=cpfx)
@@ -224,12 +239,12 @@ def check_lines(ctx, rng):
         if has_comment:
             # delta: does the difference disappear without the whole-line comments?
             nb = _strip_comments(body)
-            a2 = util.capture(lambda: A.from_string(line_form(nb, "tags", ind, multiline=ml)).render(**data))
-            b2 = util.capture(lambda: B.from_string(line_form(nb, "line", ind, pfx, cpfx, multiline=ml)).render(**data))
+            a2 = util.capture(lambda: A.from_string(line_form(nb, "tags", ind, multiline=ml, blanks=bl)).render(**data))
+            b2 = util.capture(lambda: B.from_string(line_form(nb, "line", ind, pfx, cpfx, multiline=ml, blanks=bl)).render(**data))
             if same(a2, b2):
                 key = "linecomment:whole-line-comment-leaves-newline"
         ctx.violation(key, f"tags {a!r} vs line statements {b!r} | A={a_src!r} B={b_src!r}",
-                      {"kind": "lines", "body": body, "data": data, "indent": ind, "prefix": [pfx, cpfx], "ml": ml})
+                      {"kind": "lines", "body": body, "data": data, "indent": ind, "prefix": [pfx, cpfx], "ml": ml, "bl": bl})
 
 
 def _flat(body):
@@ -512,8 +527,9 @@ def replay(ctx, case):
         A = jinja2.Environment(trim_blocks=True, lstrip_blocks=True)
         B = jinja2.Environment(trim_blocks=True, lstrip_blocks=True, line_statement_prefix=pfx, line_comment_prefix=cpfx)
         ml = case.get("ml", False)
-        a = util.capture(lambda: A.from_string(line_form(body, "tags", ind, multiline=ml)).render(**data))
-        b = util.capture(lambda: B.from_string(line_form(body, "line", ind, pfx, cpfx, multiline=ml)).render(**data))
+        bl = case.get("bl", False)
+        a = util.capture(lambda: A.from_string(line_form(body, "tags", ind, multiline=ml, blanks=bl)).render(**data))
+        b = util.capture(lambda: B.from_string(line_form(body, "line", ind, pfx, cpfx, multiline=ml, blanks=bl)).render(**data))
         if not same(a, b):
             ctx.violation("linestatement", f"{a!r} vs {b!r}", case)
     else:
